@@ -31,6 +31,9 @@
 //	             (kinds are given by the names they print as: `kinds` table of interp/ast.go)
 //	stepKinds    the kinds for which (*node).isStep is true whatever the action (a position being required), when
 //	             the rest of its body is `return n.action != aNop || n.start == n && len(n.child) == 0`
+//	debugDataKept  (*node).setProgram (called on every node by Debug) keeps the debug data a node already has
+//	             (`if n.debug == nil { n.debug = new(nodeDebugData) }; n.debug.program = p`): the forwarding closures that
+//	             setForwardExec recorded while compiling (function literals) are still there when the session runs
 //	cfgKinds     the kinds whose entry points cfgNodes visits besides root.start: funcType (the body of the
 //	             enclosing function: n.anc.child[3].start when there are 4 children), constDecl/varDecl (n.start and
 //	             the start of every child); the walk follows tnext and fnext (and the clauses of a select)
@@ -455,6 +458,13 @@ func printed(names map[string]string, ids []string) []string {
 	return out
 }
 
+// debugDataKept recognises (*node).setProgram.
+func debugDataKept(file *ast.File) bool {
+	fd := common.FindFunc(file, "node", "setProgram")
+	return fd != nil && fd.Body != nil && src(fd.Type) == "func(p *Program)" &&
+		src(fd.Body) == "{ if n.debug == nil { n.debug = new(nodeDebugData) } n.debug.program = p }"
+}
+
 func identList(es []ast.Expr) []string {
 	var out []string
 	for _, e := range es {
@@ -609,7 +619,8 @@ def facts : DebugLoopFacts :=
     prevUpdate := %s,
     placement := %s,
     stepKinds := %s,
-    cfgKinds := %s }
+    cfgKinds := %s,
+    debugDataKept := %s }
 /-- fingerprints of the functions that Model/Debug.lean transcribes -/
 def sourceHashes : List (String × String) :=
   %s ++
@@ -620,12 +631,12 @@ end YaegiVerif.Generated.C19
 `, common.LeanStrList(order), common.LeanStrList(probes), common.LeanStr(cmp), b(fwd),
 			common.LeanStr(origCmp(common.FindFunc(run, "", "originalExecNode"))), common.LeanStr(backEdge(cfg)),
 			common.LeanStrList(cases), common.LeanStr(over), common.LeanStr(out), b(noPos), common.LeanStrList(depthOps(dbg)),
-			common.LeanStr(bc), b(pu), common.LeanStr(placement(dbg)), common.LeanStrList(printed(kn, stepKinds(dbg))), common.LeanStrList(printed(kn, cfgKinds(dbg))),
+			common.LeanStr(bc), b(pu), common.LeanStr(placement(dbg)), common.LeanStrList(printed(kn, stepKinds(dbg))), common.LeanStrList(printed(kn, cfgKinds(dbg))), b(debugDataKept(itp)),
 			common.HashTable(fsetR, run, [][2]string{{"", "runCfg"}, {"", "isExecNode"}, {"", "execID"}, {"", "originalExecNode"}}),
 			common.HashTable(fsetD, dbg, [][2]string{{"Debugger", "exec"}, {"Debugger", "enterCall"}, {"Debugger", "exitCall"},
 				{"Debugger", "SetBreakpoints"}, {"debugRoutine", "setMode"}, {"Debugger", "Continue"}, {"Debugger", "Step"},
 				{"Debugger", "Terminate"}, {"Interpreter", "Debug"}, {"Debugger", "entersLine"}, {"", "cfgNodes"}, {"node", "isStep"}}),
-			common.HashTable(fsetI, itp, [][2]string{{"node", "shouldBreak"}, {"node", "setBreakOnLine"}, {"node", "setBreakOnCall"}, {"node", "Walk"}}),
+			common.HashTable(fsetI, itp, [][2]string{{"node", "shouldBreak"}, {"node", "setBreakOnLine"}, {"node", "setBreakOnCall"}, {"node", "Walk"}, {"node", "setProgram"}}),
 			common.HashTable(fsetC, cfg, [][2]string{{"", "setExec"}, {"", "setForwardExec"}, {"", "getExec"}})), nil
 	})
 }
